@@ -107,7 +107,7 @@ fn token(rng: &mut Rng, n: usize) -> String {
 pub fn gen_uri(rng: &mut Rng, tag: &str) -> Vec<u8> {
     let tl = 1 + rng.below(6);
     let t = if tag.is_empty() { token(rng, tl) } else { tag.to_string() };
-    let s = match rng.weighted(&[50, 10, 8, 8, 4, 4, 4, 4, 4, 4]) {
+    let s = match rng.weighted(&[50, 10, 8, 8, 4, 4, 4, 4, 4, 4, 3, 2, 2]) {
         0 => format!("/{}", t),
         1 => format!("/{}/{}?q={}", token(rng, 3), t, token(rng, 4)),
         2 => format!("http://localhost/{}", t),
@@ -117,7 +117,11 @@ pub fn gen_uri(rng: &mut Rng, tag: &str) -> Vec<u8> {
         6 => t.to_string(),
         7 => format!("*{}", t),
         8 => format!("http:/{}", t),
-        _ => format!("//{}", t),
+        9 => format!("//{}", t),
+        // degenerate forms: scheme only, root only, empty authority
+        10 => "http://".to_string(),
+        11 => "/".to_string(),
+        _ => format!("http:///{}", t),
     };
     s.into_bytes()
 }
